@@ -58,7 +58,7 @@ impl std::fmt::Debug for PD {
     }
 }
 
-#[unimock(api=UMock, unmock_with=[_, real_r1, _, _, real_d1, _, _, _, _, _])]
+#[unimock(api=UMock, unmock_with=[_, real_r1, _, _, real_d1, _, _, _, _, _, _])]
 pub trait U {
     fn r0(&self, a: u8) -> Val;
     fn r1(&self, a: u8) -> Val;
@@ -79,6 +79,8 @@ pub trait U {
     }
     /// (lifecycle mock: answered by `.panics(..)`) the error text renders the argument
     fn pd(&self, x: PD) -> u8;
+    /// a composite with two owned non-Clone leaves around a borrowed one: a single-use response made of several slots
+    fn tt(&self) -> (Tok, &Val, Tok);
 }
 
 pub fn real_r1(dep: &impl U, a: u8) -> Val {
